@@ -212,6 +212,7 @@ func (it *Interp) resetPath(prefix []int) {
 	it.fixed = map[string]*Term{}
 	it.gzipUnder = map[*Object]Value{}
 	it.jsonSeq = 0
+	it.jsonMsgs = nil
 	it.pathNotes = nil
 	it.stack = nil
 	it.model = nil
